@@ -371,6 +371,30 @@ func nameAliases(stmts []ast.Stmt) map[string]bool {
 // itself runs into (a skip shared by all cases)
 func (c *wCtx) casesOf(stmts []ast.Stmt, w *wWalker, where string) error {
 	stmts = inlineNameFlags(stmts)
+	// if !(<condition on the name>) { continue } (also written as a disjunction of != comparisons): what follows runs
+	// under the condition
+	for k, st := range stmts {
+		if is, ok := st.(*ast.IfStmt); ok && is.Init == nil && is.Else == nil && len(is.Body.List) == 1 && endsWithContinue(is.Body.List) {
+			if pos, ok := negateCond(is.Cond); ok {
+				if _, guarded, isName := nameCond(pos); isName && guarded {
+					pre := stmts[:k]
+					clean := true
+					for _, ps := range pre {
+						if h, err := c.handlerOf([]ast.Stmt{ps}, where); err != nil || h.kind != "none" {
+							clean = false
+						}
+					}
+					if clean {
+						wrapped := append(append([]ast.Stmt{}, pre...), &ast.IfStmt{Cond: pos, Body: &ast.BlockStmt{List: stmts[k+1:]}})
+						return c.casesOf(wrapped, w, where)
+					}
+				}
+			}
+		}
+		if _, isAssign := st.(*ast.AssignStmt); !isAssign {
+			break
+		}
+	}
 	// if X.Name.Local != "lit" { ...; continue } followed by what is done for "lit"
 	if len(stmts) >= 1 {
 		if is, ok := stmts[0].(*ast.IfStmt); ok && is.Init == nil && is.Else == nil && endsWithContinue(is.Body.List) {
@@ -935,7 +959,8 @@ func genWalkers(repo string) (string, error) {
 							continue
 						}
 						if ue, ok := is.Cond.(*ast.UnaryExpr); ok && ue.Op == token.NOT && exprStringDeep(ue.X) == okName && !w.depth {
-							if err := c.casesOf(body[idx+2:], w, where); err != nil {
+							// (no switch stands between these statements and the loop: a plain break leaves the loop)
+							if err := c.casesOf(breaksLeaveLoop(body[idx+2:]), w, where); err != nil {
 								return "", err
 							}
 							if !w.eofOK {
@@ -1500,6 +1525,56 @@ func inlineNameFlags(stmts []ast.Stmt) []ast.Stmt {
 	}
 	if still {
 		return stmts
+	}
+	return out
+}
+
+// negateCond: the negation of a condition built from !x, a != b and disjunctions of such
+func negateCond(e ast.Expr) (ast.Expr, bool) {
+	switch x := e.(type) {
+	case *ast.ParenExpr:
+		return negateCond(x.X)
+	case *ast.UnaryExpr:
+		if x.Op == token.NOT {
+			return x.X, true
+		}
+	case *ast.BinaryExpr:
+		switch x.Op {
+		case token.NEQ:
+			return &ast.BinaryExpr{X: x.X, Op: token.EQL, Y: x.Y}, true
+		case token.LOR:
+			l, ok1 := negateCond(x.X)
+			r, ok2 := negateCond(x.Y)
+			if ok1 && ok2 {
+				return &ast.BinaryExpr{X: l, Op: token.LAND, Y: r}, true
+			}
+		}
+	}
+	return nil, false
+}
+
+// breaksLeaveLoop: in a statement list that stands directly in the loop body, a plain break at the end of the list or
+// at the end of the body of one of its if statements leaves the loop; it is written as a return here, which is what the
+// classification of handlers understands as "the walk of this loop ends"
+func breaksLeaveLoop(stmts []ast.Stmt) []ast.Stmt {
+	isBreak := func(st ast.Stmt) bool {
+		br, ok := st.(*ast.BranchStmt)
+		return ok && br.Tok == token.BREAK && br.Label == nil
+	}
+	out := make([]ast.Stmt, 0, len(stmts))
+	for i, st := range stmts {
+		if i == len(stmts)-1 && isBreak(st) {
+			out = append(out, &ast.ReturnStmt{})
+			continue
+		}
+		if is, ok := st.(*ast.IfStmt); ok && is.Else == nil {
+			if n := len(is.Body.List); n > 0 && isBreak(is.Body.List[n-1]) {
+				nb := append(append([]ast.Stmt{}, is.Body.List[:n-1]...), &ast.ReturnStmt{})
+				out = append(out, &ast.IfStmt{Init: is.Init, Cond: is.Cond, Body: &ast.BlockStmt{List: nb}})
+				continue
+			}
+		}
+		out = append(out, st)
 	}
 	return out
 }
